@@ -520,11 +520,45 @@ def batch_facts(prog: Program, r: DispatcherRoles) -> Tuple[Dict[str, Any], List
         if ckd.kind in ('len-cmp', 'other') and isinstance(cnd.ast, ast.Compare) and 'len(' in norm(cnd.ast) and \
                 any(v in norm(cnd.ast) for v in req_vars):
             size_conds.append(cnd)
-    facts['size_guard'] = [_norm_size(c.ast, req_vars) for c in size_conds]
-    if len(size_conds) != 1:
-        raise AnalysisError(f'{f.qualname}: expected exactly one batch-size comparison, found {len(size_conds)}')
-    sz = size_conds[0]
-    form = _norm_size(sz.ast, req_vars)
+    # every comparison of a length with the batch limit must be made on something known to be a batch: the deserialised
+    # BatchRequest, or the decoded document under an isinstance(list/tuple) test — len() of a single request object counts its members
+    main_conds = []
+    raw_conds = []
+    for cnd in size_conds:
+        subj = None
+        for x in ast.walk(cnd.ast):
+            if isinstance(x, ast.Call) and dotted(x.func) == 'len' and x.args:
+                subj = dotted(x.args[0])
+        gs = guard_edges(cfg, cnd)
+        is_batch = False
+        for g in gs:
+            ckd = classify_cond(prog, f, g.src.ast)
+            if ckd.kind == 'isinstance' and ckd.subject == subj and (g.label == 'T') != ckd.negated:
+                names = set(ckd.detail.split(','))
+                if names <= {'list', 'tuple'} or names == {V20 + '.BatchRequest'}:
+                    is_batch = True
+        if not is_batch:
+            problems.append(('REJECT-BEFORE-RUN', f'size guard on `{subj}` outside a batch test', cnd.line,
+                             f'`{norm(cnd.ast)}` compares len({subj}) with the batch limit where {subj} is not known to be a batch (no dominating '
+                             f'isinstance test): for a single request object len() counts its members, so a valid single request with more '
+                             f'members than the limit is rejected'))
+        elif subj in req_vars:
+            main_conds.append(cnd)
+        else:
+            raw_conds.append(cnd)
+    # a guard on the decoded document under a list test (before deserialisation) is a batch guard as well
+    main_conds = main_conds or raw_conds
+    raw_subjects = {dotted(x.args[0]) for c in raw_conds for x in ast.walk(c.ast)
+                    if isinstance(x, ast.Call) and dotted(x.func) == 'len' and x.args and dotted(x.args[0])}
+    facts['size_guard'] = [_norm_size(c.ast, req_vars) for c in (main_conds or size_conds)]
+    if not main_conds:
+        if any(p_[0] == 'REJECT-BEFORE-RUN' for p_ in problems):
+            return facts, problems
+        raise AnalysisError(f'{f.qualname}: expected a batch-size comparison on the deserialised batch, found {len(size_conds)} comparisons')
+    if len(main_conds) > 1:
+        raise AnalysisError(f'{f.qualname}: expected exactly one batch-size comparison on the deserialised batch, found {len(main_conds)}')
+    sz = main_conds[0]
+    form = _norm_size(sz.ast, req_vars | raw_subjects)
     if form != 'len(<batch>) > <limit>':
         problems.append(('REJECT-BEFORE-RUN', f'size guard `{form}`', sz.line,
                          f'the batch size guard is `{norm(sz.ast)}`; a batch is over the limit iff len(batch) > max_batch_size '
@@ -535,7 +569,9 @@ def batch_facts(prog: Program, r: DispatcherRoles) -> Tuple[Dict[str, Any], List
         if t_edge and (n.id in cfg.reachable(t_edge[0].dst) or n is t_edge[0].dst):
             problems.append(('REJECT-BEFORE-RUN', 'over-limit batch still executed', n.line,
                              'the per-element handler is reachable on the over-the-limit branch: a rejected batch must execute nothing'))
-        if n.id in cfg.reachable(cfg.entry, avoid_nodes=[sz], avoid_edges=[]) and not _limit_unset_path(cfg, prog, f, sz, n):
+        # (a guard placed on the decoded document is correlated with the later BatchRequest test only through the value of the
+        # document: the path-insensitive bypass test cannot decide that case and is not applied to it)
+        if sz not in raw_conds and n.id in cfg.reachable(cfg.entry, avoid_nodes=[sz], avoid_edges=[]) and not _limit_unset_path(cfg, prog, f, sz, n):
             problems.append(('REJECT-BEFORE-RUN', 'element handler bypasses the size guard', n.line,
                              'a per-element handler call is reachable without passing the batch-size guard'))
     for n, c in single_calls:
@@ -933,6 +969,17 @@ def mw_fold_facts(prog: Program, r: DispatcherRoles) -> Tuple[Dict[str, Any], Li
                                              f'`{norm(st)}`: the stack must be the configured sequence as given (same entries, same order, same '
                                              f'multiplicity); `{norm(v)}` can drop, reorder or de-duplicate middlewares, so a request passes through '
                                              f'fewer layers than declared'))
+    # the constructor argument is an Iterable: it may be a one-shot iterator, so it can be walked once — by whoever stores it
+    leaf = src_expr
+    while isinstance(leaf, ast.Call) and dotted(leaf.func) in ('tuple', 'list', 'iter', 'reversed') and len(leaf.args) == 1:
+        leaf = leaf.args[0]
+    if isinstance(leaf, ast.Name) and leaf.id in {p.arg for p in f.params}:
+        others = [x for x in walk_own(f.node) if isinstance(x, ast.Name) and x.id == leaf.id and isinstance(x.ctx, ast.Load) and x is not leaf]
+        if others:
+            problems.append(('MW-FOLD', 'constructor argument iterated a second time', head.line,
+                             f'the chain is folded over `{norm(it)}`, i.e. the `{leaf.id}` argument itself, which was already handed on at line '
+                             f'{others[0].lineno} (stored as a list there): for a one-shot iterable (generator, map, filter) the second walk is '
+                             f'empty and no middleware runs although they are configured'))
     org = prov.origins(src_expr, f)
     from_mw = any(o[0] == 'param' and o[3] == 'middlewares' for o in org) or \
         any(o[0] == 'param' and 'middleware' in o[3] for o in org)
